@@ -881,7 +881,27 @@ func cmdRepl(args []string) {
 		}
 	}
 	if ok {
-		// state-machine snapshot of the leader installed on a fresh single-node cluster
+		// state-machine snapshot of the leader installed on a fresh single-node cluster; the snapshot holds
+		// different keys in three databases
+		if *seed%2 == 0 {
+			// every other run restores a dataset the snapshot format can carry (strings and hashes of strings):
+			// a list in it ends the restoring process (open finding), which says nothing about the rest
+			ok = rr.step([]Tok{S("FLUSHALL")}, 0, c.Leader())
+		}
+		for _, db := range []int{0, 1, 10} {
+			d := strconv.Itoa(db)
+			for _, cmd := range [][]Tok{
+				{S("SET"), S("r" + d), B("v" + d)},
+				{S("HSET"), S("rh" + d), B("f"), B("x" + d)},
+				{S("SET"), S("rt" + d), B("t"), S("PXAT"), At(rr.t+3600000, "ms")},
+			} {
+				if ok && !rr.step(cmd, db, c.Leader()) {
+					ok = false
+				}
+			}
+		}
+	}
+	if ok {
 		lead := c.Leader()
 		b, err := lead.DB.VerifRaftSnapshot(rr.t)
 		ev := map[string]any{"ev": "restore", "run": rr.run - 1, "src": lead.ID, "now": rr.t}
